@@ -1040,6 +1040,15 @@ impl<'de> serde::de::Visitor<'de> for DataVisitor<'_> {
                     } else if handle > self.dataset.data_len() {
                         // expand the gaps, though this wastes memory if ensures that all references
                         // are valid without explicitly storing public identifiers.
+                        let additional = handle - self.dataset.data_len();
+                        self.dataset
+                            .data
+                            .try_reserve(additional)
+                            .map_err(|_| -> A::Error {
+                                serde::de::Error::custom(
+                                    "unable to allocate memory for the gap implied by a temporary public identifier for annotation data",
+                                )
+                            })?;
                         self.dataset.data.resize_with(handle, Default::default);
                     }
                 }
